@@ -18,7 +18,7 @@ CHECKS.update({
         "technique": "runtime monitoring: specification-model oracle over generated project trees, real `reuse lint --json` in process (and through the real worker pool), EACCES failpoints from an audit hook",
         "text": "compliant-by-construction trees with 0-6 injected defects of ten kinds are linted by the real CLI; the eight issue "
                 "collections, summary.compliant and the exit status are compared with an independent model of the specification "
-                "computed from the generation recipe. 400 (quick) / 60 000 (thorough) trees; all defect pairs forced in thorough.",
+                "computed from the generation recipe. 1 200 (quick) / 60 000 (thorough) trees; all defect pairs forced in thorough.",
         "note": "trusted: the spec model in vlib/trees.py; only plain forms of each dimension (own-line tags, exact-path tables); "
                 "held on the executions produced, not a proof over all trees",
     },
